@@ -739,12 +739,14 @@ func mNewUUID(ex *Exec, c *callCtx) Value {
 // ---- havoc ----
 
 type havocSpec struct {
-	def int
-	by  map[string]int
+	def       int
+	by        map[string]int
+	constKeys map[string]bool // map fields whose slot keys are the constants ID0, ID1, ...
+	idField   string          // field of the map's pointee that equals the key (Tasks -> ID)
 }
 
 func parseHavocSpec(s string) havocSpec {
-	hs := havocSpec{def: 2, by: map[string]int{}}
+	hs := havocSpec{def: 2, by: map[string]int{}, constKeys: map[string]bool{}, idField: "ID"}
 	for i, p := range strings.Split(s, ";") {
 		p = strings.TrimSpace(p)
 		if p == "" {
@@ -755,6 +757,12 @@ func parseHavocSpec(s string) havocSpec {
 			continue
 		}
 		kv := strings.SplitN(p, "=", 2)
+		if kv[0] == "constkeys" {
+			for _, f := range strings.Split(kv[1], ",") {
+				hs.constKeys[f] = true
+			}
+			continue
+		}
 		n, _ := strconv.Atoi(kv[1])
 		hs.by[kv[0]] = n
 	}
@@ -810,6 +818,12 @@ func (ex *Exec) havoc(name string, t types.Type, hs havocSpec, field string) Val
 		return sv
 	case *types.Pointer:
 		o := ex.newObject(name, u.Elem(), ex.havoc(name, u.Elem(), hs, field))
+		if _, basic := u.Elem().Underlying().(*types.Basic); basic {
+			// optional scalar (JSON input fields): symbolically nil
+			isNil := Var(name+".nil", SBool)
+			ex.nondets = append(ex.nondets, &NondetVar{name + ".nil", "bool", isNil})
+			return MergeV(isNil, NilRef(), Ref1(AddrT{Obj: o}))
+		}
 		return Ref1(AddrT{Obj: o})
 	case *types.Map:
 		m := ex.newMap(name, u)
@@ -818,9 +832,27 @@ func (ex *Exec) havoc(name string, t types.Type, hs havocSpec, field string) Val
 			en := fmt.Sprintf("%s#%d", name, i)
 			live := Var(en+".live", SBool)
 			ex.nondets = append(ex.nondets, &NondetVar{en + ".live", "bool", live})
-			e := &MapEntry{Live: live, Key: ex.havoc(en+".key", u.Key(), hs, field), Val: ex.havoc(en+".val", u.Elem(), hs, field)}
-			for _, o := range m.entries {
-				ex.assume(Implies(And(live, o.Live), Not(keyEq(e.Key, o.Key))))
+			var e *MapEntry
+			if hs.constKeys[field] {
+				key := StrLit(fmt.Sprintf("ID%d", i))
+				val := ex.havoc(en+".val", u.Elem(), hs, field)
+				// the pointee's id field is the key itself
+				if pt, ok := u.Elem().Underlying().(*types.Pointer); ok {
+					if st, ok := pt.Elem().Underlying().(*types.Struct); ok {
+						for fi := 0; fi < st.NumFields(); fi++ {
+							if st.Field(fi).Name() == hs.idField {
+								obj := val.(RefV).Alts[0].Tgt.(AddrT).Obj
+								obj.val = setPath(obj.val, []int{fi}, func(Value) Value { return key })
+							}
+						}
+					}
+				}
+				e = &MapEntry{Live: live, Key: key, Val: val}
+			} else {
+				e = &MapEntry{Live: live, Key: ex.havoc(en+".key", u.Key(), hs, field), Val: ex.havoc(en+".val", u.Elem(), hs, field)}
+				for _, o := range m.entries {
+					ex.assume(Implies(And(live, o.Live), Not(keyEq(e.Key, o.Key))))
+				}
 			}
 			m.entries = append(m.entries, e)
 		}
